@@ -22,7 +22,7 @@ pub struct C11 {
 
 /// main stage: the two triaged divergences are excluded by construction (no empty container literal, no delete)
 pub fn cfg() -> GenCfg {
-    GenCfg { no_empty_containers: true, delete: false, no_toplevel_subsume_delete: true, one_container_sort_per_table: true, ..cfg_all() }
+    GenCfg { no_empty_containers: true, delete: false, no_toplevel_subsume_delete: true, one_container_sort_per_table: true, no_container_func_keys: true, ..cfg_all() }
 }
 
 /// everything the encoder declares supported, including the triggers of the known findings (tolerated by signature)
@@ -148,6 +148,11 @@ pub fn judge_text(text: &str, out: &mut Outcome) {
             if reinserts_deleted_term(text) {
                 out.soft.push(crate::fw::Violation::new("encoding:insert-after-delete-of-absent-row-lost", format!("[{mode}] {d}")));
                 out.class("known:reinsert-after-delete");
+                return;
+            }
+            if d.contains("to have type @Proof") && d.contains("-of") {
+                out.soft.push(crate::fw::Violation::new("encoding:proofs:rule-body-function-keyed-by-container-literal", format!("[{mode}] {d}")));
+                out.class("known:function-keyed-by-container-literal");
                 return;
             }
             if d.contains("@@container_rebuild") {
